@@ -81,6 +81,14 @@ Section Ops.
     | _ => r
     end.
 
+  (* strings.Repeat(s, c) without going through unary numbers *)
+  Definition repeat_bytes_Z (s : bytes) (c : Z) : bytes :=
+    match s, c with
+    | [], _ => []
+    | _, Zpos p => Pos.iter (app s) [] p
+    | _, _ => []
+    end.
+
   (* operator.go repeatString *)
   Definition f_max_int32 : float := Z2F 2147483647.
   Definition repeat_string (s : bytes) (n : float) : outcome jv :=
@@ -89,7 +97,7 @@ Section Ops.
       let m := if flt n f_max_int32 then n else f_max_int32 in      (* min(n, math.MaxInt32) *)
       let c := ftrunc m in
       if 2147483647 <=? (Z.of_nat (List.length s) * c) mod 2 ^ 64 then Err ERepeatTooLarge
-      else Val (JStr (repeat_bytes s (Z.to_nat c))).
+      else Val (JStr (repeat_bytes_Z s c)).
 
   Definition op_mul (l r : jv) : outcome jv :=
     binop_switch l r
